@@ -240,6 +240,9 @@ def _l2(spec):
     P = np.stack([rng.uniform(pts[:, 0].min() - 0.3 * ext, pts[:, 0].max() + 0.3 * ext, n),
                   rng.uniform(pts[:, 1].min() - 0.3 * ext, pts[:, 1].max() + 0.3 * ext, n),
                   dev.layer.z0 + rng.choice([-1, 1], n) * rng.uniform(0.05, 1.0, n) * ext], axis=1)
+    # the first eight points sit exactly above / below mesh sites (x and y bit-equal to a site's: "the field on the mesh, at height h")
+    on_sites = rng.choice(len(pts), size=min(8, len(pts)), replace=False)
+    P[: len(on_sites), :2] = pts[on_sites]
     areas_si = dev.mesh.areas * xi**2 * LU[lu] ** 2
     src = np.concatenate([pts, dev.layer.z0 * np.ones((len(pts), 1))], axis=1) * LU[lu]
     FU = {"mT": 1e-3, "uT": 1e-6, "T": 1.0}
